@@ -2113,6 +2113,9 @@ def clean_dictionary(ddct):
                                .format(linenumber))
         newlst = []
         isuffix = 0
+        # A default suffix must not repeat one given explicitly.
+        explicit = [dct.get("function_suffix") for dct in fortran_generic
+                    if isinstance(dct, dict)]
         for dct in fortran_generic:
             if not isinstance(dct, dict):
                 linenumber=ddct.get("__line__", "?")
@@ -2135,6 +2138,8 @@ def clean_dictionary(ddct):
                     raise RuntimeError(
                         "{} must be a dictionary in fortran_generic at line {}"
                         .format(key, linenumber))
+            while "_" + str(isuffix) in explicit:
+                isuffix += 1
             newlst.append(
                 FortranGeneric(
                     dct["decl"],
